@@ -51,6 +51,12 @@ def top(n: size, x: f32[n], y: f32[n], s: f32):
 @proc
 def top2(n: size, x: f32[n], y: f32[n], s: f32):
     h(n, y[0:n], s)
+
+
+@proc
+def mat(n: size, A: f32[n, n], y: f32[n], v: f32):
+    for i in seq(0, n):
+        y[i] = A[i, 0] * v
 '''
 
 FIELDS = [("CfgA", "a"), ("CfgA", "b"), ("CfgB", "a")]
@@ -85,7 +91,7 @@ def gen_history(seed: int, cfg: dict) -> list:
     r = substream(seed, "eqv-api-hist")
     n_ops = r.randint(cfg.get("min_ops", 6), cfg.get("max_ops", 16))
     fault_rate = cfg.get("fault_rate", 0.0)
-    live = ["g", "h", "top", "top2"]
+    live = ["g", "h", "top", "top2", "mat"]
     lineage = {x: x for x in live}
     ops = []
     k = 0
@@ -113,8 +119,17 @@ def gen_history(seed: int, cfg: dict) -> list:
             ops.append({"op": "partial_eval", "on": p, "out": out, "n": r.choice([2, 3, 4])})
         elif u < 0.76:
             ops.append({"op": "add_assertion", "on": p, "out": out})
-        elif u < 0.80:
+        elif u < 0.78:
             ops.append({"op": "extract_subproc", "on": p, "out": out})
+        elif u < 0.80:
+            # signature changers beyond partial_eval / add_assertion: transpose of a 2-D argument
+            ms = [x for x in live if lineage[x] == "mat"]
+            p = r.choice(ms) if ms else p
+            if ms:
+                lineage[out] = out
+                ops.append({"op": "transpose", "on": p, "out": out})
+            else:
+                ops.append({"op": "set_memory", "on": p, "out": out})
         elif u < 0.85:
             ops.append({"op": "unsafe_assert_eq", "on": p, "other": r.choice(live)})
             continue
@@ -127,7 +142,7 @@ def gen_history(seed: int, cfg: dict) -> list:
             callee = r.choice(cands) if cands and r.random() < 0.8 else r.choice(live)
             ops.append({"op": "call_eqv", "on": p, "out": out, "callee": callee})
         else:
-            ops.append({"op": "forget", "on": p}) if len(live) > 5 and p not in ("g", "h", "top", "top2") else ops.append({"op": "gc"})
+            ops.append({"op": "forget", "on": p}) if len(live) > 6 and p not in ("g", "h", "top", "top2", "mat") else ops.append({"op": "gc"})
             if ops[-1]["op"] == "forget":
                 live.remove(p)
             continue
@@ -155,7 +170,7 @@ def run_history(ops: list, log_keep=False) -> dict:
     faults = {"crash_planned": 0, "crash_fired": 0, "forget": 0, "gc": 0}
     viol = None
     ns = define(SRC, tag="eqvapi")
-    procs = {k: ns[k] for k in ("g", "h", "top", "top2")}
+    procs = {k: ns[k] for k in ("g", "h", "top", "top2", "mat")}
     for k in procs:
         model.add_node(k)
     crash = CrashSeam()
@@ -226,6 +241,18 @@ def run_history(ops: list, log_keep=False) -> dict:
             return p.partial_eval(n=op["n"])
         if nm == "add_assertion":
             return p.add_assertion("n > 0")
+        if nm == "transpose":
+            a2 = [a for a in p.args() if a.is_tensor() and len(a.shape()) == 2]
+            if not a2:
+                raise LookupError("no 2-D argument")
+            return p.transpose(a2[0])
+        if nm == "set_memory":
+            from exo.libs.memories import DRAM_STACK
+
+            al = [a for a in p.args() if a.is_tensor()]
+            if not al:
+                raise LookupError("no tensor argument")
+            return AS.set_memory(p, al[0], DRAM_STACK)
         if nm == "extract_subproc":
             r0, sub = AS.extract_subproc(p, p.body()[0], "ex_sub")
             return (r0, sub)
@@ -297,7 +324,7 @@ def run_history(ops: list, log_keep=False) -> dict:
             faults["gc"] += 1
             continue
         if nm == "forget":
-            if op["on"] in procs and op["on"] not in ("g", "h", "top", "top2"):
+            if op["on"] in procs and op["on"] not in ("g", "h", "top", "top2", "mat"):
                 del procs[op["on"]]
                 collect()
                 faults["forget"] += 1
@@ -349,12 +376,12 @@ def run_history(ops: list, log_keep=False) -> dict:
         procs[op["out"]] = res
         model.add_node(op["out"])
         K_obs = observed[-1] if observed else None
-        if nm in ("partial_eval", "add_assertion"):
+        if nm in ("partial_eval", "add_assertion", "transpose"):
             # new origin: no edge
             if K_obs is not None:
                 fail("signature-changing-op-keeps-provenance", f"{nm} registered a derivation step", idx, op)
                 break
-        elif nm in ("rename", "simplify", "insert_pass", "extract_subproc"):
+        elif nm in ("rename", "simplify", "insert_pass", "extract_subproc", "set_memory"):
             if K_obs is None:
                 fail("derivation-not-recorded", f"{nm} did not register a derivation step", idx, op)
                 break
